@@ -2,9 +2,11 @@
 real code (harness/sched.py) and on the thread model (driver op `threads`), canonical comparison,
 and the model-free oracles.
 
-A case is a JSON-able dict  {z: 0|1|2, progs: [[call token, ...], ...], schedule: [tid, ...], mode: 'sync'|'line'}
+A case is a JSON-able dict  {z: 0..4, progs: [[call token, ...], ...], schedule: [tid, ...], mode: 'sync'|'line',
+                               n: chunks per sendall (int, or {"*": n, "<tid>.<call>": n}; default 2), fail: [[tid, call, k], ...]}
 (call tokens: see sched.parse_call).  z: 0 = no extension, 1 = permessage-deflate with context
-takeover, 2 = with client_no_context_takeover."""
+takeover, 2 = with client_no_context_takeover, 3 = with server_no_context_takeover, 4 = both.
+`fail`: the sendall of that call raises once k chunks are out (TransportFail to the caller)."""
 from __future__ import annotations
 import random, struct, zlib
 import runner
@@ -106,21 +108,75 @@ def model_line(case, steps, variant=None):
     """the model is run on the schedule that was effectively executed (one entry per sync step,
     `blocked` no-ops included)"""
     variant = variant or detect_variant()
-    return 'threads v=%s z=%d | %s | %s' % (variant, case['z'], progs_str(case), ''.join(str(t) for t, _ in steps))
+    return 'threads v=%s z=%d%s | %s | %s' % (variant, case['z'], env_keys(case), progs_str(case), ''.join(str(t) for t, _ in steps))
+
+
+def env_keys(case):
+    """the socket of the case as driver keys: n=<chunks per sendall> nn=<t.c:n,..> fail=<t.c.k,..> (nothing = 2 chunks, no failure)"""
+    out = ''
+    nspec = case.get('n', 2)
+    if isinstance(nspec, dict):
+        out += ' n=%d' % int(nspec.get('*', 2))
+        per = ['%s:%d' % (k, int(v)) for k, v in sorted(nspec.items()) if k != '*']
+        if per:
+            out += ' nn=' + ','.join(per)
+    elif int(nspec) != 2:
+        out += ' n=%d' % int(nspec)
+    if case.get('fail'):
+        out += ' fail=' + ','.join('%d.%d.%d' % (t, c, k) for t, c, k in case['fail'])
+    return out
+
+
+def more_of(case, t, c):
+    nspec = case.get('n', 2)
+    if isinstance(nspec, dict):
+        n = int(nspec.get('%d.%d' % (t, c), nspec.get('*', 2)))
+    else:
+        n = int(nspec)
+    return max(1, n) - 1
+
+
+def fail_of(case, t, c):
+    for a, b, k in case.get('fail', []):
+        if (a, b) == (t, c):
+            return k
+    return None
+
+
+def groups_of(tags):
+    """maximal runs of chunks of one call, a run ending with the call's last chunk: (tid, call, chunks before the last, last written)"""
+    gs, cur = [], None
+    for (t, c, h) in tags:
+        if cur is not None and (t, c) == (cur[0], cur[1]):
+            if h == 1:
+                gs.append((cur[0], cur[1], cur[2], True)); cur = None
+            else:
+                cur = (t, c, cur[2] + 1)
+        else:
+            if cur is not None:
+                gs.append((cur[0], cur[1], cur[2], False)); cur = None
+            if h == 1:
+                gs.append((t, c, 0, True))
+            else:
+                cur = (t, c, 1)
+    if cur is not None:
+        gs.append((cur[0], cur[1], cur[2], False))
+    return gs
 
 
 def enum_line(case, pb=None, variant=None):
     variant = variant or detect_variant()
-    return 'threads-enum v=%s z=%d pb=%s | %s' % (variant, case['z'], '-' if pb is None else pb, progs_str(case))
+    return 'threads-enum v=%s z=%d%s pb=%s | %s' % (variant, case['z'], env_keys(case), '-' if pb is None else pb, progs_str(case))
 
 
 # ---------------------------------------------------------------------------------------------
 # canonical form of a real run (same token format as Driver.Thr.runThreads)
 
 def _frame_first_byte(chunks, tid, call):
+    """first byte of the frame of (tid, call): the first byte of its first non-empty chunk on the wire"""
     for t, c, h, hx in chunks:
-        if (t, c, h) == (tid, call, 0):
-            return bytes.fromhex(hx)[0] if hx else None
+        if (t, c) == (tid, call) and hx:
+            return bytes.fromhex(hx)[0]
     return None
 
 
@@ -150,21 +206,18 @@ def dataflow_problems(r):
     for c in r['zcalls']:
         if c['kind'] in ('compress', 'flush'):
             outs[(c['tid'], c['call'])] = outs.get((c['tid'], c['call']), b'') + bytes.fromhex(c['out'])
-    halves = {}
-    for t, c, h, hx in r['chunks']:
-        halves.setdefault((t, c), {})[h] = bytes.fromhex(hx)
-    for key, hv in halves.items():
-        if 0 in hv and 1 in hv:
-            data = hv[0] + hv[1]
-            try:
-                f = decode_client_frames(data)
-            except ClientFrameError as e:
-                probs.append('sendall data of %r is not one frame: %s' % (key, e))
-                continue
-            if len(f) != 1:
-                probs.append('sendall data of %r holds %d frames' % (key, len(f)))
-            elif f[0]['rsv1'] and f[0]['payload'] != outs.get(key, b'')[:-4]:
-                probs.append('compressed payload of %r is not the output of its own compress()+flush()' % (key,))
+    for w in r.get('sendalls', []):
+        key = (w['tid'], w['call'])
+        data = bytes.fromhex(w['data'])
+        try:
+            f = decode_client_frames(data)
+        except ClientFrameError as e:
+            probs.append('sendall data of %r is not one frame: %s' % (key, e))
+            continue
+        if len(f) != 1:
+            probs.append('sendall data of %r holds %d frames' % (key, len(f)))
+        elif f[0]['rsv1'] and f[0]['payload'] != outs.get(key, b'')[:-4]:
+            probs.append('compressed payload of %r is not the output of its own compress()+flush()' % (key,))
     return probs
 
 
@@ -187,17 +240,17 @@ def canon_real(case, r):
         for i, name in enumerate(r['results'][t]):
             toks.append('R%d.%d:%s:%s' % (t, i, name, 'w' if (t, i) in wrote else '-'))
     tags = [(t, c, h) for t, c, h, _ in chunks]
-    whole = True
-    i = 0
-    while i < len(tags):
-        if tags[i][2] != 0:
-            whole = False
-            break
-        if i + 1 < len(tags):
-            if tags[i + 1] != (tags[i][0], tags[i][1], 1):
-                whole = False
-                break
-        i += 2
+    gs = groups_of(tags)
+
+    def g_whole(g):
+        return g[3] and g[2] == more_of(case, g[0], g[1])
+
+    def g_torn(g):
+        return (not g[3]) and fail_of(case, g[0], g[1]) == g[2] and g[2] <= more_of(case, g[0], g[1])
+    whole = all(g_whole(g) or g_torn(g) for g in gs[:-1])
+    if gs:
+        g = gs[-1]
+        whole = whole and (g_whole(g) or g_torn(g) or ((not g[3]) and g[2] <= more_of(case, g[0], g[1])))
     closes = 0
     after = False
     first_close = None
@@ -213,10 +266,15 @@ def canon_real(case, r):
         t, c, h = tags[first_close]
         if not (rest == [] or (rest == [(t, c, 1)] and h == 0)):
             after = True
+    afterw = False
+    for k, (t, c, h) in enumerate(tags):
+        b0 = _frame_first_byte(chunks, t, c)
+        if h == 1 and b0 is not None and (b0 & 15) == 8 and k + 1 < len(tags):
+            afterw = True
     fl = r['flags']
-    toks.append('END:closing=%d:closed=%d:sock=%d:shut=%d:lock=%s:whole=%d:closes=%d:after=%d' % (
+    toks.append('END:closing=%d:closed=%d:sock=%d:shut=%d:lock=%s:whole=%d:closes=%d:after=%d:afterw=%d' % (
         fl['closing'], fl['closed'], fl['sock'], fl['shut'], '-' if fl['lock'] is None else fl['lock'],
-        whole, closes, after))
+        whole, closes, after, afterw))
     return ' '.join(toks)
 
 
@@ -244,36 +302,60 @@ def expected_of(tok):
         return (8, close_payload(c[1], c[2]))
     if k == 'tk':
         return (9, b'')
+    if k in ('rm', 'rm2'):
+        return None         # the loop receives a message: nothing is written
     raise ValueError(tok)
 
 
-def wire_messages(case, r):
-    """decode the wire with the reference codec and a zlib peer.
-       returns (messages [(opcode, bytes)] in wire order, failures [(cls, what)])"""
+def wire_runs(case, r):
+    """the chunks on the wire as runs of one call each (a run ends with that call's last chunk), with what the
+    harness knows about the sendall they come from: returns (runs, fails); run = dict(tid, call, bytes, done, torn_ok)"""
     fails = []
-    chunks = [bytes.fromhex(hx) for _, _, _, hx in r['chunks']]
-    wire = b''.join(chunks)
-    try:
-        frames = decode_client_frames(wire)
-    except ClientFrameError as e:
-        return None, [('torn-wire', 'the bytes written are not a sequence of client frames: %s' % e)]
-    # every sendall (= two consecutive chunks) must be exactly one frame of that sequence
-    bounds, pos = set(), 0
-    for f in frames:
-        n = len(f['payload'])
-        pos += 2 + (0 if n < 126 else 2 if n < 65536 else 8) + 4 + n
-        bounds.add(pos)
-    pos = 0
-    for k, c in enumerate(chunks):
-        pos += len(c)
-        if k % 2 == 1 and pos not in bounds:
-            fails.append(('torn-wire', 'write %d does not end on a frame boundary (interleaved halves)' % (k // 2)))
-            break
-    if len(chunks) % 2:
-        fails.append(('torn-wire', 'a frame was written only in part'))
+    runs = []
+    for t, c, h, hx in r['chunks']:
+        if runs and not runs[-1]['done'] and (runs[-1]['tid'], runs[-1]['call']) == (t, c):
+            runs[-1]['bytes'] += bytes.fromhex(hx)
+        else:
+            runs.append(dict(tid=t, call=c, bytes=bytes.fromhex(hx), done=False))
+        if h == 1:
+            runs[-1]['done'] = True
+    injected = {(w['tid'], w['call']): w for w in r.get('sendalls', []) if w['failed']}
+    seen = set()
+    for k, run in enumerate(runs):
+        key = (run['tid'], run['call'])
+        if key in seen:
+            fails.append(('torn-wire', 'the chunks of call %d of thread %d are not contiguous on the wire (interleaved)' % (key[1], key[0])))
+        seen.add(key)
+        if not run['done']:
+            w = injected.get(key)
+            if w is not None and bytes.fromhex(w['data'])[:w['written']] == run['bytes']:
+                run['torn_ok'] = True       # the head of the frame of a sendall the socket was told to fail
+            else:
+                fails.append(('torn-wire', 'call %d of thread %d left a partial frame on the wire (%d bytes) although its sendall was not made to fail' % (
+                    key[1], key[0], len(run['bytes']))))
+    return runs, fails
+
+
+def wire_messages(case, r):
+    """decode the wire with the reference codec and a zlib peer; torn heads of frames whose sendall was made to fail
+       by the harness are set aside (the peer could not read past them; the property is about everybody else's frames).
+       returns (messages [(opcode, bytes, tid, call)] in wire order, failures [(cls, what)])"""
+    runs, fails = wire_runs(case, r)
     if fails:
         return None, fails
-    peer = DeflatePeer(client_no_takeover=case['z'] == 2)
+    frames = []
+    for run in runs:
+        if not run['done']:
+            continue
+        try:
+            f = decode_client_frames(run['bytes'])
+        except ClientFrameError as e:
+            return None, [('torn-wire', 'the bytes written by call %d of thread %d are not a client frame: %s' % (run['call'], run['tid'], e))]
+        if len(f) != 1:
+            return None, [('torn-wire', 'the bytes written by call %d of thread %d are %d frames' % (run['call'], run['tid'], len(f)))]
+        f[0]['tid'], f[0]['call'] = run['tid'], run['call']
+        frames.append(f[0])
+    peer = DeflatePeer(client_no_takeover=case['z'] in (2, 4))
     msgs = []
     broken = False          # the peer's inflater has failed: later compressed frames are lost as well
     for k, f in enumerate(frames):
@@ -307,10 +389,13 @@ def judge_wire(case, r):
     loop = {t for t, p in enumerate(progs) if sched.is_loop_prog(p)}
     must, may, mustnot = [], [], []
     per_thread = {}
+    failed_sendalls = {(w['tid'], w['call']) for w in r.get('sendalls', []) if w['failed']}
     for t, p in enumerate(progs):
         res = r['results'].get(t, [])
         for i, tok in enumerate(p):
             e = expected_of(tok)
+            if e is None:
+                continue
             if t in loop or tok.startswith('cl='):
                 if i < len(res) or t not in loop:
                     may.append((t, i, e))
@@ -319,9 +404,14 @@ def judge_wire(case, r):
                 fails.append(('incomplete', 'call %d of thread %d did not return' % (i, t)))
             elif res[i] == 'ok':
                 must.append((t, i, e))
+                if (t, i) in failed_sendalls:
+                    fails.append(('swallowed-transport-fail', 'the sendall of call %d of thread %d (%s) was made to fail but the call returned ok' % (i, t, tok)))
             else:
                 mustnot.append((t, i, e))
-                if res[i] not in WS_ERRORS:
+                if res[i] == 'TransportFail':
+                    if (t, i) not in failed_sendalls:
+                        fails.append(('loser-wrong-error', 'call %d of thread %d (%s) raised TransportFail although its sendall was not made to fail' % (i, t, tok)))
+                elif res[i] not in WS_ERRORS:
                     fails.append(('loser-wrong-error', 'call %d of thread %d (%s) raised %s, not a WebSocketError' % (i, t, tok, res[i])))
     remaining = list(enumerate(msgs))
     zcls = 'compress-outside-lock' if case['z'] else 'wrong-message'
@@ -344,7 +434,7 @@ def judge_wire(case, r):
         pos = take(e)
         if pos is not None:
             per_thread.setdefault(t, []).append((i, pos))
-    written_by = {(t, c) for t, c, _, _ in r['chunks']}      # which call handed bytes to sendall (harness bookkeeping)
+    written_by = {(t, c) for t, c, h, _ in r['chunks'] if h == 1}      # which call's sendall completed (harness bookkeeping)
     for t, i, e in mustnot:
         comp = progs[t][i][:3] in ('st1', 'sb1') and case['z']
         if (t, i) in written_by:
@@ -363,6 +453,30 @@ def judge_wire(case, r):
         lst.sort()
         if [p for _, p in lst] != sorted(p for _, p in lst):
             fails.append(('thread-order', 'messages of thread %d are not on the wire in call order' % t))
+    fails += judge_received(case, r)
+    # name the cause when the step log shows it: the receiving thread touched the compressor / a sender the decompressor
+    if any(t in loop and k.startswith('z:') for t, k in r['steps']):
+        fails = [('receive-touches-compressor' if cls == 'compress-outside-lock' else cls, what) for cls, what in fails]
+    if any(t not in loop and k.startswith('zd:') for t, k in r['steps']):
+        fails = [('send-touches-decompressor' if cls == 'receive-corrupted' else cls, what) for cls, what in fails]
+    return fails
+
+
+def judge_received(case, r):
+    """the receive side while others send: the application gets exactly the compressed messages the server sent, in order"""
+    sent, got = r.get('server_sent', []), r.get('received', [])
+    fails = []
+    if got != sent[:len(got)]:
+        k = next(i for i in range(len(got)) if i >= len(sent) or got[i] != sent[i])
+        fails.append(('receive-corrupted', 'compressed message %d from the server was delivered as %r, sent was %r' % (
+            k, bytes.fromhex(got[k])[:60], bytes.fromhex(sent[k])[:60] if k < len(sent) else None)))
+    else:
+        for t, p in enumerate(case['progs']):
+            if sched.is_loop_prog(p):
+                res = r['results'].get(t, [])
+                n_rm = sum(1 for i, tok in enumerate(p) if tok.split('=')[0] in ('rm', 'rm2') and i < len(res))
+                if n_rm > len(got):
+                    fails.append(('receive-corrupted', 'the loop processed %d compressed messages but delivered %d' % (n_rm, len(got))))
     return fails
 
 
@@ -380,11 +494,40 @@ def judge_close(case, r):
         if later:
             names = {1: 'Text', 2: 'Binary', 9: 'Ping', 10: 'Pong'}
             fails.append(('data-after-close', 'frame(s) written after the Close frame: %s' % ', '.join(names.get(m[0], str(m[0])) for m in later)))
+    # not even the torn head of a frame may follow a complete Close frame
+    runs, _ = wire_runs(case, r)
+    seen_close = False
+    for run in runs:
+        if seen_close and not run['done']:
+            fails.append(('data-after-close', 'a partial frame of call %d of thread %d was written after the Close frame' % (run['call'], run['tid'])))
+        if run['done'] and run['bytes'] and (run['bytes'][0] & 15) == 8:
+            seen_close = True
+    # a close() that has returned - written, failed or refused - leaves the connection closing or closed
+    for t, p in enumerate(case['progs']):
+        res = r['results'].get(t, [])
+        for i, tok in enumerate(p):
+            if tok.startswith('cl=') and i < len(res) and not (r['flags']['closing'] or r['flags']['closed']):
+                fails.append(('close-returned-not-closing', 'close() (call %d of thread %d) returned %s but the websocket is neither closing nor closed' % (i, t, res[i])))
+                break
     # losers: a send that is not on the wire failed with a WebSocketError; a send that returned ok is on the wire
     for cls, what in judge_wire(case, r):
-        if cls in ('missing-message', 'error-but-written', 'loser-wrong-error', 'incomplete', 'torn-wire', 'bad-frame'):
+        if cls in ('missing-message', 'error-but-written', 'loser-wrong-error', 'incomplete', 'torn-wire', 'bad-frame', 'swallowed-transport-fail'):
             fails.append((cls, what))
     return fails
+
+
+def after_torn_close(case, r):
+    """NOT a failure class (see Properties/C12_Fail.lean `torn_close_then_data`): frames written after the TORN head of a
+    Close frame whose sendall the harness made fail - the window between the release of the lock by the failed
+    `session.write(..., closing=True)` and the `closing = True` of `WebSocket.close`.  Returns the list of what followed."""
+    runs, _ = wire_runs(case, r)
+    out, torn = [], False
+    for run in runs:
+        if torn:
+            out.append((run['tid'], run['call'], 'whole' if run['done'] else 'partial', (run['bytes'][0] & 15) if run['bytes'] else None))
+        if not run['done'] and run['bytes'] and (run['bytes'][0] & 15) == 8:
+            torn = True
+    return out
 
 
 # ---------------------------------------------------------------------------------------------
@@ -427,6 +570,11 @@ def random_line_schedule(rng, nthreads, ncalls):
     return out
 
 
+def sock(c):
+    """the socket keys of a case (chunks per sendall, injected failures), to be carried over to derived cases"""
+    return {k: c[k] for k in ('n', 'fail') if k in c}
+
+
 def random_sync_cases(rng, shapes, n):
     """sync-granularity schedules drawn uniformly, NOT taken from the model's enumerator: a thread is
     also scheduled while another one is inside the critical section (on the real code that entry is a
@@ -437,7 +585,7 @@ def random_sync_cases(rng, shapes, n):
         nthreads = len(c['progs'])
         steps = 14 * sum(len(p) for p in c['progs'])
         out.append(dict(z=c['z'], progs=c['progs'], mode='sync', family='random-sync',
-                        schedule=[rng.randrange(nthreads) for _ in range(steps)]))
+                        schedule=[rng.randrange(nthreads) for _ in range(steps)], **sock(c)))
     return out
 
 
@@ -454,13 +602,13 @@ def enumerate_cases(base_cases, model_ok, rng, cap=None):
                 scheds = rng.sample(scheds, cap)
                 c = dict(c, sampled=True)
             for s in scheds:
-                out.append(dict(z=c['z'], progs=c['progs'], schedule=[int(ch) for ch in s], mode='sync', family=c.get('family', '')))
+                out.append(dict(z=c['z'], progs=c['progs'], schedule=[int(ch) for ch in s], mode='sync', family=c.get('family', ''), **sock(c)))
             c['n_schedules'] = len(scheds)
     else:
         for c in base_cases:
             n = len(c['progs'])
             for _ in range(30):
-                out.append(dict(z=c['z'], progs=c['progs'], schedule=[rng.randrange(n) for _ in range(60)], mode='sync', family=c.get('family', '')))
+                out.append(dict(z=c['z'], progs=c['progs'], schedule=[rng.randrange(n) for _ in range(60)], mode='sync', family=c.get('family', ''), **sock(c)))
     return out
 
 
@@ -483,7 +631,7 @@ def run_and_compare(res, cases, judge, model_ok):
     seen_cls = {}
     for k, line, m in zip(idx, lines, models):
         c, r = cases[k], reals[k]
-        key = (c['z'], progs_str(c), tuple(t for t, _ in r['steps']), c['mode'])
+        key = (c['z'], progs_str(c), tuple(t for t, _ in r['steps']), c['mode'], env_keys(c))
         res.case(key, nontrivial=interleaved(r['steps']))
         res.count('mode_' + c['mode'])
         res.count('z%d' % c['z'])
@@ -496,11 +644,17 @@ def run_and_compare(res, cases, judge, model_ok):
             res.diffs.append(dict(input=c, real=real_line[-1500:], model='(harness) ' + '; '.join(probs)[:800]))
         res.traces_validated += 1
         fails = judge(c, r)
+        if c.get('fail'):
+            res.count('socket_failures_injected')
+            if after_torn_close(c, r):
+                res.count('observed_frames_after_a_TORN_close (documented window, C12Fail.torn_close_then_data)')
+        if c.get('n', 2) != 2:
+            res.count('chunks_per_sendall_%s' % (c['n'] if not isinstance(c['n'], dict) else 'mixed'))
         if m is not None:
             mm, peer = strip_peer(m)
             if mm != real_line:
                 res.diffs.append(dict(input=c, line=line, real=real_line[-2500:], model=mm[-2500:]))
-            elif peer == 'ok' and any(cls == 'compress-outside-lock' for cls, _ in fails):
+            elif peer == 'ok' and any(cls in ('compress-outside-lock', 'receive-touches-compressor') for cls, _ in fails):
                 # the abstract peer of the model says every block is decodable, zlib disagrees
                 res.diffs.append(dict(input=c, line=line, real='zlib peer fails', model='peer=ok'))
             res.count('model_peer_' + peer)
@@ -529,6 +683,8 @@ def replay(rp):
         return 0
     r = sched.run_real(case)
     print('programs : %s   (deflate mode z=%d, granularity %s)' % (progs_str(case), case['z'], case['mode']))
+    if sock(case):
+        print('socket   : %s' % (env_keys(case).strip() or 'n=2'))
     print('schedule : %s' % ''.join(str(t) for t in case['schedule']))
     print('sync steps executed: ' + ' '.join('%d:%s' % s for s in r['steps']))
     print('wire     : ' + ' '.join('T%d.%d%s:%s' % (t, c, 'ab'[h], hx) for t, c, h, hx in r['chunks']))
